@@ -80,6 +80,11 @@ def data_input(name, pattern, carrier='list_none', symbolic=True, values=None):
         if len(cells) != len(els):
             raise ValueError('integer carrier with missing values')
         return Vec.fresh(cells, kind='nd', dtype='i8', owner=name)
+    if carrier == 'ndarray_u1':
+        cells = [El(e.d if isinstance(e, Sc) else X.num(e), False) for e in els if e is not None]
+        if len(cells) != len(els):
+            raise ValueError('integer carrier with missing values')
+        return Vec.fresh(cells, kind='nd', dtype='u1', owner=name)
     if carrier == 'masked_nan':
         # a masked array (no element masked) in which the missing values are NaN
         cells = [El(X.NAN, False) if e is None else El(e.d if isinstance(e, Sc) else X.num(e), False) for e in els]
